@@ -403,6 +403,251 @@ def text_expect(x, t, bufsize, pgn=None):
     return e
 
 
+# ------------------------------------------------------------------------------------------------ repeated-record PGNs (setter + n appends)
+P_1E4, P_1E2, P_1E5, P_1E7 = 4547007122018943789, 4576918229304087675, 4532020583610935537, 4502148214488346440
+MAX_SAT = 18
+# record layouts as published (field, kind): the oracle decodes the payload / judges the record parser with these, not with the library
+REC = {
+    129540: {'setters': ['SetN2kPGN129540', 'SetN2kGNSSSatellitesInView'], 'appends': ['AppendN2kPGN129540', 'AppendSatelliteInfo'],
+             'hparsers': ['ParseN2kPGN129540', 'ParseN2kPGNSatellitesInView'], 'rparsers': ['ParseN2kPGN129540_o2', 'ParseN2kPGNSatellitesInView_o2'],
+             'fields': [('int', 8), ('dbl', 2, True, P_1E4), ('dbl', 2, False, P_1E4), ('dbl', 2, True, P_1E2), ('dbl', 4, True, P_1E5), ('int', 4)]},
+    129285: {'setters': ['SetN2kPGN129285_o2', 'SetN2kPGN129285', 'SetN2kRouteWPInfo'], 'appends': ['AppendN2kPGN129285', 'AppendN2kRouteWPInfo'],
+             'hparsers': ['-'], 'rparsers': ['-'], 'fields': [('int', 16), ('text', 30), ('dbl', 4, True, P_1E7), ('dbl', 4, True, P_1E7)]},
+    130074: {'setters': ['SetN2kPGN130074', 'SetN2kWaypointList'], 'appends': ['AppendN2kPGN130074', 'AppendN2kWaypointList'],
+             'hparsers': ['-'], 'rparsers': ['-'], 'fields': [('int', 16), ('text', None), ('dbl', 4, True, P_1E7), ('dbl', 4, True, P_1E7)]},
+}
+
+
+def rec_pools(r, pgn, thorough):
+    P = []
+    for f in REC[pgn]['fields']:
+        if f[0] == 'int':
+            w = f[1]
+            vals = [0, 1, (1 << w) - 1, (1 << w) - 2, 1 << (w - 1), 0x55 & ((1 << w) - 1)]
+            if pgn == 129540 and w == 4:
+                vals = list(range(16))
+            elif pgn == 129540:
+                vals += [255, 254, 32]
+            P.append(('int', vals + [r.randrange(1 << w) for _ in range(6)]))
+        elif f[0] == 'dbl':
+            P.append(('double', dbl_pool(r, {'kind': 'double', 'fields': [{'n': f[1], 's': f[2], 'p': f[3]}]}, thorough)))
+        else:
+            lens = [0, 1, 2, 5, 8, 12, 29, 30, 31, 40] if f[1] else [0, 1, 2, 5, 8, 12, 30, 40]
+            names = [rand_text(r, n, ASCII).encode() for n in lens for _ in range(2)]
+            P.append(('text', names))
+    return P
+
+
+def gen_append(seed, tier):
+    """setter, then n appends (n = 0, 1, 2, max-1, max, max+1, max+2 and random; names of varying length so that the payload limit is
+    reached before / after the record limit), then the header parser and the record parser for every index up to beyond the count"""
+    r = random.Random(seed * 2750159 + 5)
+    thorough = tier != 'quick'
+    cases = []
+    for pgn, d in REC.items():
+        fns = [FN.get(x) for x in d['setters'] + d['appends']]
+        if any(f is None or not f['harness'] for f in fns):
+            continue
+        P = rec_pools(r, pgn, thorough)
+        k = len(P)
+        reps = (36 if pgn == 129540 else 26) * (1 if not thorough else 12)
+        for rep in range(reps):
+            sname, aname = d['setters'][rep % len(d['setters'])], d['appends'][(rep // 2) % len(d['appends'])]
+            hp, rp = d['hparsers'][rep % len(d['hparsers'])], d['rparsers'][(rep // 3) % len(d['rparsers'])]
+            s = FN[sname]
+            htup = tuples(r, s, 3, False)[rep % 3]
+            for j, x in enumerate(s['ins']):              # route names: ASCII, short and long
+                if x['kind'] == 'text':
+                    htup[j] = rand_text(r, r.choice([0, 1, 7, 29, 30, 31, 45]), ASCII).encode()
+            if pgn == 129540:
+                n = [0, 1, 2, 17, 18, 19, 20, 18, 18][rep % 9] if rep < 27 else r.randint(0, 20)
+                namelen = None
+            else:
+                n = [0, 1, 2, 3, 9, 14, 17, 20, 24][rep % 9] if rep < 18 else r.randint(0, 24)
+                namelen = [None, 0, 1, 30, 31, 60, 100, 190, 5][rep % 9]
+            recs = []
+            for i in range(n):
+                rec = []
+                for (kind, pool) in P:
+                    v = pool[(rep * 7 + i * 3 + len(rec)) % len(pool)] if rep % 2 == 0 else r.choice(pool)
+                    if kind == 'text' and namelen is not None:
+                        v = rand_text(r, namelen if i % 3 else max(0, namelen - i), ASCII).encode()
+                    rec.append(tok({'kind': kind}, v))
+                recs += rec
+            nidx = min(n, 21) + 2 if rp != '-' else 0
+            cases.append(('A %s %s %s %s %d %s %d %d %s %d' % (sname, aname, hp, rp, len(htup), ' '.join(tok(x, v) for x, v in zip(s['ins'], htup)), k, n,
+                                                             ' '.join(recs), nidx)).replace('  ', ' '))
+    return cases
+
+
+def scaled_ok(v, got_bits, nb, sg, pr_bits):
+    """None if got (double bits hex or raw double) is an acceptable reading of argument v in an nb-byte field of that resolution"""
+    pr = pbits(pr_bits)
+    if v == NA:
+        return None if got_bits == NA_BITS else 'not available read as %s' % got_bits
+    if math.isnan(v) or math.isinf(v):
+        return None
+    qv = Fraction(v) / Fraction(pr)
+    L, O = lo_(nb, sg), orc_(nb, sg)
+    if not (L <= qv <= O - 1):
+        return None
+    if got_bits in ('nan', NA_BITS):
+        return 'in-range value %r read as %s' % (v, got_bits)
+    rv = bd(got_bits)
+    err = abs(Fraction(rv) - Fraction(v)) / abs(Fraction(pr))
+    if err > Fraction(1, 2) + abs(qv) * Fraction(1, 2 ** 50) + Fraction(1, 10 ** 12):
+        return '%r read as %r, off by %.6g steps' % (v, rv, float(err))
+    return None
+
+
+def code_to_bits(code, nb, sg, pr_bits):
+    """what a reader of the published layout obtains from a raw little endian field"""
+    na = ((1 << (8 * nb - 1)) if sg else (1 << (8 * nb))) - 1
+    if sg and code >= (1 << (8 * nb - 1)):
+        code -= 1 << (8 * nb)
+    if code == na:
+        return NA_BITS
+    return db(code * pbits(pr_bits))
+
+
+def read_varstr(data, o):
+    if o + 2 > len(data):
+        return None, o
+    ln, ty = data[o], data[o + 1]
+    if ln < 2 or o + ln > len(data):
+        return None, o
+    return (ty, bytes(data[o + 2:o + ln])), o + ln
+
+
+def oracle_append(t, res):
+    sname, aname, hp, rp = t[1], t[2], t[3], t[4]
+    s = FN[sname]
+    pgn = s.get('pgn')
+    d = REC.get(pgn)
+    if d is None:
+        return None
+    nh = int(t[5])
+    hargs = [parse_arg(x) for x in t[6:6 + nh]]
+    k, n = int(t[6 + nh]), int(t[7 + nh])
+    rtok = t[8 + nh:8 + nh + n * k]
+    recs = [[parse_arg(x) for x in rtok[i * k:(i + 1) * k]] for i in range(n)]
+    parts = res.split(' | ')
+    m = re.fullmatch(r'k\S+ A (\S+) S (\d+) (\d+) (\d+) (\d+) (\S+)', parts[0])
+    if not m:
+        return 'harness:unparsable result'
+    steps = m.group(1)
+    acc = [] if steps == '-' else [steps[2 * i:2 * i + 2] for i in range(n)]
+    data = b'' if m.group(6) == '-' else bytes.fromhex(m.group(6))
+    key = 'PGN%d.records' % pgn
+    INFO['append_cases'] = INFO.get('append_cases', 0) + 1
+    if any(a == '0!' for a in acc):
+        return '%s.refused-append-changes-message:%s append %d returned false but changed the message' % (key, aname, acc.index('0!'))
+    hnames = {x['name']: v for x, v in zip(s['ins'], hargs)}
+    if pgn == 129540:
+        for i, a in enumerate(acc):
+            if i < MAX_SAT and a != '1+':
+                return '%s.append-refused:%s refused record %d of at most %d' % (key, aname, i, MAX_SAT)
+            if i >= MAX_SAT and a == '1+':
+                return '%s.append-beyond-maximum:%s accepted record %d' % (key, aname, i)
+        cnt = min(n, MAX_SAT)
+        if len(data) != 3 + 12 * cnt:
+            return '%s.length:%d records in %d bytes' % (key, cnt, len(data))
+        for ptxt in parts[1:]:
+            mm = re.fullmatch(r'(H|I(\d+)) P (\d)(.*)', ptxt)
+            if not mm:
+                return 'harness:unparsable result'
+            outs = mm.group(4).split()
+            if mm.group(1) == 'H':
+                if mm.group(3) != '1':
+                    return '%s.header:%s returned false' % (key, hp)
+                if outs[2] != 'i%d' % cnt:
+                    return '%s.count:%s reports %s records after %d accepted appends' % (key, hp, outs[2][1:], cnt)
+                if outs[0] != 'i%d' % hnames.get('SID', 0) or outs[1] != 'i%d' % (hnames.get('Mode', 0) & 3):
+                    return '%s.header:%s returned SID %s mode %s' % (key, hp, outs[0], outs[1])
+                continue
+            i = int(mm.group(2))
+            if i >= cnt:
+                if mm.group(3) != '0':
+                    return '%s.index-beyond-count:%s returned true for index %d of %d records' % (key, rp, i, cnt)
+                continue
+            INFO['record_reads'] = INFO.get('record_reads', 0) + 1
+            if mm.group(3) != '1':
+                return '%s.record-refused:%s returned false for index %d of %d records' % (key, rp, i, cnt)
+            rec = recs[i]
+            if outs[0] != 'i%d' % rec[0]:
+                return '%s.PRN.int:record %d PRN %d parsed as %s' % (key, i, rec[0], outs[0][1:])
+            if rec[5] < 16 and outs[5] != 'i%d' % rec[5]:
+                return '%s.UsageStatus.int:record %d usage status %d parsed as %s' % (key, i, rec[5], outs[5][1:])
+            for j, nm in ((1, 'Elevation'), (2, 'Azimuth'), (3, 'SNR'), (4, 'RangeResiduals')):
+                f = d['fields'][j]
+                w = scaled_ok(bd(rec[j]), outs[j][1:], f[1], f[2], f[3])
+                if w:
+                    return '%s.%s.scaled:record %d of %d: %s' % (key, nm, i, cnt, w)
+        return None
+    # 129285 / 130074: no parser in the library; decode the payload as the published layout says
+    try:
+        if pgn == 129285:
+            start, items, db_, route = (int.from_bytes(data[i:i + 2], 'little') for i in (0, 2, 4, 6))
+            flags = data[8]
+            rn, o = read_varstr(data, 9)
+            if rn is None:
+                return '%s.header:route name not decodable' % key
+            o += 1
+            want = {'Start': start, 'Database': db_, 'Route': route}
+            nav, sup = flags & 7, (flags >> 3) & 3
+            for nm, got in list(want.items()) + [('NavDirection', nav), ('SupplementaryData', sup)]:
+                if nm in hnames and (hnames[nm] & (0xffff if nm in want else (7 if nm == 'NavDirection' else 3))) != got:
+                    return '%s.header.%s:%d written as %d' % (key, nm, hnames[nm], got)
+            if 'RouteName' in hnames and all(0x20 <= c < 0x7f for c in hnames['RouteName']) and rn[0] == 1 and rn[1] != hnames['RouteName'][:30]:
+                return '%s.header.RouteName:%r written as %r' % (key, hnames['RouteName'], rn[1])
+        else:
+            start, items, nwp, db_ = (int.from_bytes(data[i:i + 2], 'little') for i in (0, 2, 4, 6))
+            o = 10
+            for nm, got in (('Start', start), ('NumWaypoints', nwp), ('Database', db_)):
+                if nm in hnames and hnames[nm] != got:
+                    return '%s.header.%s:%d written as %d' % (key, nm, hnames[nm], got)
+    except IndexError:
+        return '%s.header:payload of %d bytes too short' % (key, len(data))
+    cur = o
+    kept = []
+    for i, (a, rec) in enumerate(zip(acc, recs)):
+        name = rec[1]
+        size = 12 + (min(len(name), 30) if pgn == 129285 else max(1, len(name)))
+        if a == '1+':
+            if cur + size > 223:
+                return '%s.append-beyond-payload:%s accepted record %d of %d bytes with %d bytes used' % (key, aname, i, size, cur)
+            kept.append(rec)
+            cur += size
+        elif cur + 12 + len(name) + 2 <= 223:
+            return '%s.append-refused:%s refused record %d (%d byte name) with %d of 223 bytes used' % (key, aname, i, len(name), cur)
+    if items != len(kept):
+        return '%s.count:header reports %d items after %d accepted appends' % (key, items, len(kept))
+    for i, rec in enumerate(kept):
+        INFO['record_reads'] = INFO.get('record_reads', 0) + 1
+        if o + 2 > len(data):
+            return '%s.length:record %d missing' % (key, i)
+        rid = int.from_bytes(data[o:o + 2], 'little')
+        nmv, o2 = read_varstr(data, o + 2)
+        if nmv is None or o2 + 8 > len(data):
+            return '%s.length:record %d not decodable' % (key, i)
+        if rid != rec[0]:
+            return '%s.ID.int:record %d ID %d written as %d' % (key, i, rec[0], rid)
+        name = rec[1]
+        if all(0x20 <= c < 0x7f for c in name):
+            exp = name[:30] if pgn == 129285 else (name if name else b'\x00')
+            if nmv[0] != 1 or nmv[1] != exp:
+                return '%s.Name.text:record %d name %r written as type %d %r' % (key, i, name, nmv[0], nmv[1])
+        for j, nm in ((2, 'Latitude'), (3, 'Longitude')):
+            code = int.from_bytes(data[o2 + 4 * (j - 2):o2 + 4 * (j - 1)], 'little')
+            w = scaled_ok(bd(rec[j]), code_to_bits(code, 4, True, P_1E7), 4, True, P_1E7)
+            if w:
+                return '%s.%s.scaled:record %d: %s' % (key, nm, i, w)
+        o = o2 + 8
+    if o != len(data):
+        return '%s.length:%d bytes after the last record' % (key, len(data) - o)
+    return None
+
+
 LOCAL = {}
 INFO = {'out_of_field_values': {}, 'skipped_out_of_range': 0, 'checked_int': 0, 'checked_scaled': 0, 'checked_na': 0, 'checked_text': 0, 'checked_refusals': 0, 'locality_groups': 0, 'skipped_conditional': 0}
 
@@ -431,11 +676,13 @@ def flag_status_expect(s, p, sargs, outs):
 def oracle(case, res):
     t = case.split()
     if res.startswith('crash'):
-        fid = t[2] if t[0] == 'R' else t[1]
+        fid = t[2] if t[0] in ('R', 'A') else t[1]
         f = FN.get(fid, {})
         return 'PGN%s.undefined-behaviour:%s %s' % (f.get('pgn'), f.get('name'), res)
     if res in ('badcase',):
         return 'harness:badcase'
+    if t[0] == 'A':
+        return oracle_append(t, res)
     if t[0] == 'R':
         s, p = FN[t[1]], FN[t[2]]
         n = int(t[3])
@@ -570,6 +817,8 @@ def canon(r, case=''):
     if r.startswith('crash'):
         return 'oob'
     m = re.match(r'k([^ ,]+)(?:,(\S+))? ', r)
+    if case.startswith('A '):
+        return r            # repeated-record cases: the append functions have a hand-written model (coq/Model/MsgAppendDefs.v)
     if m and (m.group(1) in UNTR or (m.group(2) and m.group(2) in UNTR)):
         return 'untranslated'
     return r
@@ -642,7 +891,8 @@ def check(run, replay=None):
         'rt_pairs_outside_generic_theorem': {x['pair']: x.get('why') for x in rt if x['status'] == 'shape'},
         'rt_pairs_untranslated': [x['pair'] for x in rt if x['status'] == 'untranslated'],
         'guard_proved': sum(1 for x in ob.get('guard', []) if x['status'] == 'proved'),
-        'guard_not_provable': [x['fn'] for x in ob.get('guard', []) if x['status'] != 'proved']}
+        'guard_proved_after_preset_outputs': [x['fn'] for x in ob.get('guard', []) if x['status'] == 'proved-weak'],
+        'guard_not_provable': [x['fn'] for x in ob.get('guard', []) if x['status'] not in ('proved', 'proved-weak')]}
     run.cov['obligations'] += gen_n
     run.cov['discharged'] += gen_n if built else 0
     if replay:
@@ -655,19 +905,27 @@ def check(run, replay=None):
             m = re.fullmatch(r'k\S+ S (\d+) \d+ \d+ \d+ (\S+)', rr)
             if m:
                 payloads.setdefault(int(m.group(1)), []).append(m.group(2))
-        cases = vlib.corpus_lines('C05') + gen(run.seed, run.tier) + gen_parser_cases(run.seed, run.tier, payloads)
+        acases = gen_append(run.seed, run.tier)
+        # full messages of the repeated-record PGNs (maximum number of records first) seed the parser-only cases of their parsers
+        aprobe = sorted(acases, key=lambda c: -len(c))[:40]
+        for rr in vlib.run_impl(exe, aprobe):
+            m = re.match(r'k\S+ A \S+ S (\d+) \d+ \d+ \d+ (\S+)', rr)
+            if m:
+                payloads.setdefault(int(m.group(1)), []).insert(0, m.group(2))
+        cases = vlib.corpus_lines('C05') + gen(run.seed, run.tier) + acases + gen_parser_cases(run.seed, run.tier, payloads)
     cases = cap_undefined(run, cases)
     run.cov['rule'] = ('per setter/parser pair (base x base, and every alias with its partner): argument tuples from per-argument pools - integers: type minimum/maximum, 0, 1, every '
                        'enumerator, every bit pattern of packed fields of <= 6 bits, first values that do not fit the field, single bits, alternating patterns, random; scaled doubles: the codes '
                        'lowest, lowest+1, -1, 0, 1, OR-2, OR-1, OR (out of range), NA, beyond both ends, quarter/half steps, random in-range codes, NaN, +-inf, +-1e300; text: lengths 0, 1, '
                        'width-1, width, width+1, longer, characters outside the AIS alphabet; PGN lists of 0..20 entries - setter on a fresh message whose buffer is pre-filled with 0x5A, '
                        'then the parser on that message.  Parser-only cases: payloads of the real setters under 7 other PGNs, truncated to 0,1,2,3,half,len-2,len-1,len bytes with 5 different '
-                       'contents beyond the payload length, random payloads.  Model (IR interpreter on the generated IR) and C++ compared bit-exactly on PGN, priority, destination, length, '
+                       'contents beyond the payload length, random payloads.  Repeated-record PGNs 129540, 129285, 130074 ("A" cases): setter, then n appends (n = 0, 1, 2, max-1, max, max+1, max+2, random; for 129285/130074 names of 0..190 characters so that the 223 byte payload is full before the record count matters), the header parser and the per-record parser for every index up to two beyond the count; every append must be accepted while the record fits, a refused append must leave PGN, priority, destination, length and payload unchanged, the count must equal the accepted appends, every record must come back (through ParseN2kPGN129540(index) for 129540, through the decoder of the published record layout that the oracle contains for 129285/130074, which have no parser), an index at or beyond the count must be refused; full messages of these PGNs also seed the parser-only cases.  Model (IR interpreter on the generated IR) and C++ compared bit-exactly on PGN, priority, destination, length, '
                        'payload, return value and every output (IEEE bit patterns); the oracle is applied to the C++ results.  non-trivial = case with a translated function')
     run.assumptions += ['little-endian host, IEEE-754 binary64; text arguments are ASCII, at most the documented field length apart from deliberate overlong cases (never beyond the 223-byte payload)',
                         'round trip within half a resolution step is stated and checked in exact arithmetic on the argument and result bit patterns; the IEEE rounding of v/precision and of code*precision is '
                         'tolerated by the oracle (2^-50 relative) and not part of any theorem',
-                        'functions outside the IR (listed under translator.untranslated) are exercised by the harness and judged by the oracle only; they have no model and no theorem']
+                        'the Append functions are outside the IR: they have hand-written Gallina models (coq/Model/MsgAppendDefs.v) compared bit-exactly with the C++ on the "A" cases; '
+                        'SetN2kPGN126996Progmem has no harness entry, no model and no theorem']
     vlib.correspond(run, 'messages', 'h_msgs', 'w64', 'C05', cases, oracle, nontrivial, canon=canon, known=known)
     info = dict(INFO)
     info['out_of_field_values'] = {k: sorted(v)[:8] for k, v in sorted(INFO['out_of_field_values'].items())}
